@@ -60,7 +60,7 @@ impl SassMap {
     }
 
     pub fn remove(&mut self, key: &Value) {
-        self.0.retain(|(ref k, ..)| k.not_equals(key));
+        self.0.retain(|(ref k, ..)| k.node != *key);
     }
 
     pub fn merge(&mut self, other: SassMap) {
